@@ -306,10 +306,19 @@ class PositionalToKeyword(ast.NodeTransformer):
 
 
 def collect_param_names(root: Path) -> dict[str, set[str]]:
-    """function / method name -> parameter names over all its definitions (dunder methods excluded)"""
+    """function / method name -> parameter names over all its definitions (dunder methods excluded; functions started
+    through `target=<name>` with a kwargs dictionary keep their parameter names: the dictionary keys are strings)"""
     out: dict[str, set[str]] = {}
+    by_target: set[str] = set()
     for f in root.rglob("*.py"):
         for n in ast.walk(ast.parse(f.read_text())):
+            if isinstance(n, ast.keyword) and n.arg == "target" and isinstance(n.value, ast.Name):
+                by_target.add(n.value.id)
+    ParamRenamer.KEEP = by_target
+    for f in root.rglob("*.py"):
+        for n in ast.walk(ast.parse(f.read_text())):
+            if isinstance(n, (ast.FunctionDef, ast.AsyncFunctionDef)) and n.name in by_target:
+                continue
             if isinstance(n, (ast.FunctionDef, ast.AsyncFunctionDef)) and not (n.name.startswith("__") and n.name.endswith("__")):
                 a = n.args
                 out.setdefault(n.name, set()).update(x.arg for x in a.posonlyargs + a.args + a.kwonlyargs if x.arg not in ("self", "cls"))
@@ -324,8 +333,10 @@ class ParamRenamer(ast.NodeTransformer):
         self.table = table
         self.scopes: list[set[str]] = []
 
+    KEEP: set[str] = set()
+
     def visit_FunctionDef(self, node):
-        dunder = node.name.startswith("__") and node.name.endswith("__")
+        dunder = (node.name.startswith("__") and node.name.endswith("__")) or node.name in self.KEEP
         # decorators and defaults belong to the enclosing scope
         node.decorator_list = [self.visit(d) for d in node.decorator_list]
         a = node.args
